@@ -288,3 +288,14 @@ Definition implicify_trace_case (g : mol) (ex : list (Z * list Z)) (rem : list Z
       end
   | Err _ => false
   end.
+
+(* every atom of ns carries the count calc_implicit gives it in this molecule (what fix_structure leaves behind for the atoms
+   recorded as changed) *)
+Definition fresh_on (g : mol) (ns : list Z) : bool :=
+  forallb (fun n => match atom_of g n, calc_implicit g n with
+                    | Some a, Ok v => option_eqb Z.eqb (a_h a) v
+                    | _, _ => false
+                    end) ns.
+(* result of an edit history: the atoms the edits touched are fresh, every stored count is a valence state *)
+Definition history_case (g : mol) (touched : list Z) (localised : bool) : bool :=
+  fresh_on g touched && (if localised then stored_ok g else true).
